@@ -106,18 +106,62 @@ def post(prop, tier, seed, tmp, bins, results, notes, log, ENV, VERIF, REPLAYS=N
         notes.append("race detector reports: %d (distinct by outermost library frames: %d)" % (total, len(seen)))
     if prop in ("C17", "C19") and any(r["config"] in ("asm", "instr-asm") for r in results):
         import asmtrace
+        HARNESS = os.path.join(VERIF, "harness")
+        overlay = os.environ.get("VERIF_OVERLAY") or None
+        base_cfg = "instr-asm" if prop == "C17" else "asm"
+        # the tracers observe the PRODUCTION build of one configuration: the assembly build, and every
+        # discovered configuration that builds other assembly / other files (GOAMD64 levels, custom tags)
+        targets = [(base_cfg, ENV, [])]
+        for c in bins:
+            if "dyn-" in c and "purego" not in c and "yield" not in c and "386" not in c and any(r["config"] == c for r in results):
+                xe, xt = dyn_env(c)
+                e = dict(ENV)
+                e.update(xe)
+                targets.append((c, e, xt))
         rounds = 2 if tier == "quick" else 12
-        res = asmtrace.run(tmp, seed, rounds, ENV, os.path.join(VERIF, "harness"), os.environ.get("VERIF_OVERLAY") or None, log)
-        log("asm trace: %s%s" % (json.dumps(res["summary"]), (" INCONCLUSIVE: " + res["inconclusive"]) if res["inconclusive"] else ""))
-        asmtrace.apply(prop, res, results, "instr-asm" if prop == "C17" else "asm", notes, REPLAYS, seed)
-    if prop == "C17" and any(r["config"] == "instr-asm" for r in results):
-        import cttrace
-        tags = next((t for c, (b, t) in bins.items() if c == "instr-asm"), ["verif"])
-        res = cttrace.run(tmp, seed, tier, ENV, os.path.join(VERIF, "harness"), os.environ.get("VERIF_OVERLAY") or None, tags, log)
-        s = res["summary"]
-        log("instruction trace: regions=%s instructions=%s operations=%s%s" % (s.get("regions"), s.get("instructions_stepped"), s.get("operations"),
-                                                                                 (" INCONCLUSIVE: " + res["inconclusive"]) if res["inconclusive"] else ""))
-        cttrace.apply(prop, res, results, "instr-asm", notes, REPLAYS, seed, tier)
+        for cfg, env, xtags in targets:
+            sub = os.path.join(tmp, "trace-" + re.sub(r"[^\w.-]", "_", cfg))
+            os.makedirs(sub, exist_ok=True)
+            res = asmtrace.run(sub, seed, rounds, env, HARNESS, overlay, log)
+            log("asm trace [%s]: %s%s" % (cfg, json.dumps(res["summary"]), (" INCONCLUSIVE: " + res["inconclusive"]) if res["inconclusive"] else ""))
+            asmtrace.apply(prop, res, results, cfg, notes, REPLAYS, seed)
+        if prop == "C17":
+            import cttrace, vgtrace
+            from concurrent.futures import ThreadPoolExecutor
+            jobs = []
+            with ThreadPoolExecutor(max_workers=2) as ex:
+                for cfg, env, xtags in targets:
+                    sub = os.path.join(tmp, "trace-" + re.sub(r"[^\w.-]", "_", cfg))
+                    tags = next((t for c, (b, t) in bins.items() if c == cfg), ["verif"]) + xtags
+                    if cfg == base_cfg:
+                        jobs.append(("ct", cfg, ex.submit(cttrace.run, sub, seed, tier, env, HARNESS, overlay, tags, log)))
+                    jobs.append(("vg", cfg, ex.submit(vgtrace.run, sub, seed, tier, env, HARNESS, overlay, log)))
+                for kind, cfg, fut in jobs:
+                    res = fut.result()
+                    s = res["summary"]
+                    if kind == "ct":
+                        log("instruction trace [%s]: regions=%s instructions=%s operations=%s%s" % (cfg, s.get("regions"), s.get("instructions_stepped"), s.get("operations"),
+                                                                                                    (" INCONCLUSIVE: " + res["inconclusive"]) if res["inconclusive"] else ""))
+                        cttrace.apply(prop, res, results, cfg, notes, REPLAYS, seed, tier)
+                    else:
+                        log("valgrind access trace [%s]: %s%s" % (cfg, json.dumps(s), (" INCONCLUSIVE: " + res["inconclusive"]) if res["inconclusive"] else ""))
+                        vgtrace.apply(prop, res, results, cfg, notes, REPLAYS, seed, tier)
+
+
+def dyn_env(config):
+    """environment / extra tags of a discovered configuration, from its name (bin/check: discover_configs)"""
+    m = re.search(r"dyn-([\w.]+)", config)
+    name = m.group(1) if m else ""
+    if name.startswith("amd64v"):
+        return dict(GOAMD64="v" + name[6:]), []
+    if name == "nocgo":
+        return dict(CGO_ENABLED="0"), []
+    if name.startswith("tag."):
+        t = name[4:]
+        if t.endswith(".purego"):
+            return {}, [t[:-7], "purego"]
+        return {}, [t]
+    return {}, []
 
 
 def adjust_rc(prop, rc, results):
